@@ -369,4 +369,63 @@ Definition ls : prog (res (list litem)) :=
     | _ => Ret Stuck
     end).
 
+(* ---------- link_to (feature): the content path becomes a symlink to a file of the caller ---------- *)
+Record lstate := mkL {
+  l_key : option bytes;
+  l_opts : wopts;
+  l_algo : algo;
+  l_target : name;
+  l_rest : bytes;       (* unread part of the target, pinned by the descriptor at open *)
+  l_seen : bytes        (* what has been read (and hashed) so far *)
+}.
+
+(* WriteOpts::link_to* : opens the target; [plain] = ToLinker::open*, which declares the file's size *)
+Definition open_linker (plain : bool) (key : option bytes) (o : wopts) (target : name) : prog (res lstate) :=
+  d <- read_file (Ext target) ;;
+  let o' := if plain then mkWopts None None (Some (lenN d)) None None None else o in
+  Ret (Ok (mkL key o' (match o_algo o' with Some a => a | None => Sha256 end) target d [])).
+
+Definition lchunk (l : lstate) (n : N) : bytes * lstate :=
+  let c := takeN n (l_rest l) in
+  (c, mkL (l_key l) (l_opts l) (l_algo l) (l_target l) (dropN n (l_rest l)) (l_seen l ++ c)).
+
+(* commit: consume the rest, symlink the content path to the (absolute) target, then the same decision rule as a
+   write's commit *)
+Definition commit_linker (l : lstate) (now : N) : prog (res integrity) :=
+  let data := l_seen l ++ l_rest l in
+  let lsri := sri_of hash (l_algo l) data in
+  let o := l_opts l in
+  let rest : prog (res integrity) :=
+    match (match o_sri o with
+           | Some d => match sri_matches d lsri with Some _ => Some d | None => None end
+           | None => Some lsri end) with
+    | None => Ret (Err EIntegrity)
+    | Some final =>
+        match (match o_size o with Some s => negb (N.eqb s (lenN data)) | None => false end), o_size o with
+        | true, Some s => Ret (Err (ESizeMismatch s (lenN data)))
+        | _, _ =>
+            match l_key l with
+            | Some key =>
+                insert key (mkWopts (o_algo o) (Some final)
+                                    (match o_size o with Some s => Some s | None => Some (lenN data) end)
+                                    (o_time o) (o_meta o) (o_raw o)) now
+            | None => Ret (Ok lsri)
+            end
+        end
+    end in
+  match content_path lsri with
+  | None => Ret Panic
+  | Some cp =>
+      step_ok (MkdirAll (parent cp)) ;;;
+      Do (SymlinkTo (LAbs (l_target l)) (InCache cp)) (fun r =>
+        match r with
+        | RErr _ => Do (Exists (InCache cp)) (fun r2 =>
+                      match r2 with RBool true => rest | _ => Ret (Err EIoErr) end)
+        | _ => rest
+        end)
+  end.
+
+Definition link_to (key : option bytes) (target : name) (now : N) : prog (res integrity) :=
+  l <- open_linker true key wopts0 target ;; commit_linker l now.
+
 End WithHash.
